@@ -10,6 +10,7 @@ Helper lemmas and the inductive invariants are in Proofs/When*.lean.
 import YaclibModel.Proofs.WhenSpec
 import YaclibModel.Proofs.WhenNodes
 import YaclibModel.Proofs.WhenComposeProgress
+import YaclibModel.Proofs.WhenComposeSharedSim
 import YaclibModel.Extracted.Kernels
 import YaclibModel.Model.Skeletons
 
@@ -414,6 +415,106 @@ example : ∃ S, WhenU.Reachable ⟨.allVec false, [.val 0, .val 1]⟩ S ∧
   exact ⟨_, h12, rfl, rfl, rfl⟩
 
 end Composed
+
+/-! ### inputs as real shared cores (Model/WhenComposeShared.lean): the entry interface is a theorem for SharedFuture inputs too
+
+`WhenS` = the When model composed with n instances of the C06 model (Model/Shared.lean): observer 0 of instance i is the
+combinator's registration (`[attach .retire]`), ANY number of other observers with arbitrary programs (earlier subscribers,
+kept copies, waiters, other combinators) run freely.  Only the ENTRY of the combinator callback is synchronised; `Retire()` of
+the entered callback is a free step of the instance (what it does: C06 `retire_moves_only_as_sole_owner`). -/
+
+section ComposedShared
+open Yaclib
+variable {W : WhenS.Workload} {T : WhenS.State}
+
+/-- **the entry interface is sound for shared inputs**: the When part of every reachable `WhenS` state is When-reachable; the
+    callback entries it counted are exactly the times instance i fired the combinator callback: at most once (C06
+    `fired_once`), and whatever fired on that core saw input i's outcome (C06 `fired_after_store`) -/
+theorem shared_input_interface_sound (hwf : W.w.wf) (h : WhenS.Reachable W T) :
+    Reachable W.w T.wh ∧
+    ∀ i, T.wh.consumed i = (Shared.firedIds (T.sh i)).count WhenS.cb0 ∧ (Shared.firedIds (T.sh i)).count WhenS.cb0 ≤ 1 ∧
+      ∀ x, x ∈ (T.sh i).fired → x.2 = some (WhenS.convS (W.w.inp i)) := by
+  obtain ⟨hW, hK⟩ := WhenS.sim hwf h
+  refine ⟨hW, fun i => ⟨hK.entries i, ?_, ?_⟩⟩
+  · have hI := Shared.inv_reachable (WhenS.shared_reachable h i).1
+    have h1 := hI.c.conserve WhenS.cb0
+    have h2 := hI.c.nodup WhenS.cb0
+    omega
+  · exact (Shared.inv_reachable (WhenS.shared_reachable h i).1).a.fired_val
+
+/-- the registering thread enters the callback inline only for the input the loop is at, only after that input was fulfilled
+    (`SetCallbackImpl<true>` saw `kResult`), and it is the first entry -/
+theorem shared_callback_entered_inline_only_if_complete (h : WhenS.Reachable W T) {i : Nat} {T' : WhenS.State}
+    (hs : WhenS.Step W T (.enterC i) T') :
+    (T.sh i).word = .result ∧ (T.sh i).stored = some (WhenS.convS (W.w.inp i)) ∧ T.wh.reg = i ∧
+    (Shared.firedIds (T.sh i)).count WhenS.cb0 = 0 := by
+  have hU := WhenS.shared_reachable h i
+  have hI := Shared.inv_reachable hU.1
+  cases hs with
+  | enterC _ s' hr hu =>
+      obtain ⟨_, _, _, f4, _, _, f7⟩ := WhenS.enterC_frame hI hU.2 hu
+      refine ⟨hI.a.word_iff.mpr f7, ?_, hr.1, f4⟩
+      rw [hI.a.stored_eq, if_neg f7]; rfl
+
+/-- the fulfiller's walk enters the callback only after it was installed (the When model is `pending`), with the stored
+    outcome of that input, and it is the first entry -/
+theorem shared_callback_entered_by_completer_only_if_installed (hwf : W.w.wf) (h : WhenS.Reachable W T) {i : Nat}
+    {T' : WhenS.State} (hs : WhenS.Step W T (.enterP i) T') :
+    T.wh.pc i = .pending ∧ (T.sh i).stored = some (WhenS.convS (W.w.inp i)) ∧
+    (Shared.firedIds (T.sh i)).count WhenS.cb0 = 0 := by
+  have hU := WhenS.shared_reachable h i
+  have hI := Shared.inv_reachable hU.1
+  have hK := (WhenS.sim hwf h).2
+  cases hs with
+  | enterP _ s' hi hu =>
+      obtain ⟨_, f2, _, _, f5, _, f7⟩ := WhenS.enterP_frame hI hU.2 hu
+      exact ⟨hK.lists_pending i f2, f7, f5⟩
+
+theorem out_set_once_shared (hwf : W.w.wf) (h : WhenS.Reachable W T) : T.wh.outSet.length ≤ 1 :=
+  out_set_once hwf (shared_input_interface_sound hwf h).1
+
+theorem no_crash_shared (hwf : W.w.wf) (h : WhenS.Reachable W T) : T.wh.crashed = false :=
+  (no_crash hwf (shared_input_interface_sound hwf h).1).1
+
+theorem inputs_consumed_once_shared (hwf : W.w.wf) (h : WhenS.Reachable W T) :
+    ∀ i, T.wh.consumed i ≤ 1 ∧ T.wh.released i ≤ 1 :=
+  inputs_consumed_once hwf (shared_input_interface_sound hwf h).1
+
+theorem shared_validator_sound {l : WhenS.Label} {T' : WhenS.State} (h : WhenS.Reachable W T)
+    (hn : WhenS.next W T l = some T') : WhenS.Reachable W T' := .step h (WhenS.next_sound hn)
+
+/-- non-vacuity (n = 2 SharedFuture inputs, driven through the components' `next`): input 1 already has another subscriber
+    (observer 1: `SubscribeInline`) when the combinator registers; input 1 completes first — its walk enters the combinator
+    callback, then runs the subscriber with input 1's value —, input 0 afterwards; the vector comes out in index order -/
+example : ∃ T, WhenS.Reachable ⟨⟨.allVec false, [.val 0, .val 1]⟩, fun i => if i = 1 then [[.attach .inl]] else []⟩ T ∧
+    T.wh.outSet = [.vec [some (.val 0), some (.val 1)]] ∧
+    (T.sh 1).fired = [(WhenS.cb0, some (.val 1)), (⟨1, 0, .inl⟩, some (.val 1))] ∧
+    (T.sh 0).fired = [(WhenS.cb0, some (.val 0))] := by
+  let W : WhenS.Workload := ⟨⟨.allVec false, [.val 0, .val 1]⟩, fun i => if i = 1 then [[.attach .inl]] else []⟩
+  let sub : Shared.Cb := ⟨1, 0, .inl⟩
+  have h0 : WhenS.Reachable W (WhenS.init W) := .init
+  have h1 := shared_validator_sound h0 (l := .free 1 (.oLoad 1 (.list []))) (T' := _) rfl
+  have h2 := shared_validator_sound h1 (l := .free 1 (.oCasOk 1)) (T' := _) rfl
+  have h3 := shared_validator_sound h2 (l := .reg 0 (.oLoad 0 (.list []))) (T' := _) rfl
+  have h4 := shared_validator_sound h3 (l := .casOk 0) (T' := _) rfl
+  have h5 := shared_validator_sound h4 (l := .reg 1 (.oLoad 0 (.list [sub]))) (T' := _) rfl
+  have h6 := shared_validator_sound h5 (l := .casOk 1) (T' := _) rfl
+  have h7 := shared_validator_sound h6 (l := .free 1 (.fXchg (.list [WhenS.cb0, sub]))) (T' := _) rfl
+  have h8 := shared_validator_sound h7 (l := .enterP 1) (T' := _) rfl
+  have h9 := shared_validator_sound h8 (l := .when (.dec 1 2)) (T' := _) rfl
+  have h10 := shared_validator_sound h9 (l := .free 1 (.fDec 5)) (T' := _) rfl
+  have h11 := shared_validator_sound h10 (l := .free 1 (.fInvoke sub (some (.val 1)))) (T' := _) rfl
+  have h12 := shared_validator_sound h11 (l := .free 0 (.fXchg (.list [WhenS.cb0]))) (T' := _) rfl
+  have h13 := shared_validator_sound h12 (l := .free 0 (.fDec 4)) (T' := _) rfl
+  have h14 := shared_validator_sound h13 (l := .enterP 0) (T' := _) rfl
+  have h15 := shared_validator_sound h14 (l := .when (.dec 0 1)) (T' := _) rfl
+  have h16 := shared_validator_sound h15 (l := .when (.dtorRel 0 0)) (T' := _) rfl
+  have h17 := shared_validator_sound h16 (l := .when (.dtorRel 0 1)) (T' := _) rfl
+  have h18 := shared_validator_sound h17
+    (l := .when (.dtorSet 0 (.vec [some (.val 0), some (.val 1)]))) (T' := _) rfl
+  exact ⟨_, h18, rfl, rfl, rfl⟩
+
+end ComposedShared
 
 /-! ### non-vacuity: concrete workloads reach the interesting states -/
 
